@@ -322,7 +322,7 @@ func (e *Enc) makeChan(fr *frame, st *State, x *ssa.MakeChan) Value {
 // every shared location. State owned by the running component is kept.
 func (e *Enc) syncPoint(fr *frame, st *State, why string) {
 	st.havocAll(e.localRefs, e.ownedKeyFilter())
-	for k := range st.ghost {
+	for _, k := range sortedKeys(st.ghost) {
 		if strings.HasPrefix(k, "visited_") || strings.HasPrefix(k, "strpos_") {
 			continue
 		}
@@ -559,7 +559,7 @@ func (e *Enc) loopHead(fr *frame, b *ssa.BasicBlock, li *loopInfo, st *State, np
 		st.ap = nap
 	}
 	// ghosts: iterators advanced inside the loop, global ghosts if sends/calls
-	for k := range st.ghost {
+	for _, k := range sortedKeys(st.ghost) {
 		if strings.HasPrefix(k, "visited_") || strings.HasPrefix(k, "strpos_") {
 			if e.iterInLoop(fr, li, k) {
 				st.ghost[k] = e.q.fresh("gh_"+k, e.q.ghostSort(k))
@@ -799,4 +799,13 @@ func loopCalls(li *loopInfo, callee string) bool {
 		}
 	}
 	return false
+}
+
+func sortedKeys(m map[string]string) []string {
+	out := make([]string, 0, len(m))
+	for k := range m {
+		out = append(out, k)
+	}
+	sort.Strings(out)
+	return out
 }
